@@ -8,6 +8,9 @@ import (
 	"verif/mc"
 )
 
+// c19Instrumented: this binary is not the instrumented one.
+const c19Instrumented = false
+
 func init() {
 	mc.RegisterWorker("c19sched", func([]string) int {
 		fmt.Println(`{"Err":"this binary was built without the instrumentation overlay (tag verifsched)"}`)
